@@ -139,6 +139,7 @@ type Engine struct {
 	onceDone    map[string]bool
 	locks       map[string]int
 	wg          map[string]int
+	syncMaps    map[string]*MapObj
 	// threads (threads.go)
 	threads     []*thread
 	cur         *thread
@@ -523,6 +524,7 @@ func (e *Engine) resetPath() {
 	e.onceDone = nil
 	e.locks = nil
 	e.wg = nil
+	e.syncMaps = nil
 	e.threads, e.cur, e.syncVC, e.access, e.mapAccess = nil, nil, nil, nil, nil
 	e.preemptLeft, e.noSched, e.noRace, e.aborting, e.abortVal, e.mtEver = 0, 0, 0, false, nil, false
 	if profiling && e.prof == nil {
